@@ -1,2 +1,53 @@
-From TV Require Import Base.
-Example C05_placeholder : True. Proof. exact I. Qed.
+(* C05 -- the initial tick updates every device at every depth exactly once.
+   Whole-simulation model (Model/Sim.v).  [devices_below] lists the devices of the subtree of a
+   level in configuration (dependency) order; [levels_below] the nested scheduler levels.
+   Premises = well-formed configuration: the nesting is a tree (every level is the inside of
+   one system component: NoDup of the level list), real components do not use the reserved
+   pseudo-component ids, and the evaluation fuel exceeds the nesting depth.  That the initial
+   OUTPUTS reach everything wired to them within the same tick (also across exposed ports) is the
+   "latest value" statement of C03, checked by its oracle on every initial tick.
+   Property theorems only. *)
+From TV Require Import Base Model.Wiring Model.Ticker Model.Component Model.Sim Proofs.SimP.
+Open Scope Z_scope.
+
+(* for any device behaviour, any depth: the observations of the master's initial tick are exactly
+   the devices of the whole tree, each once, in configuration order, all at the initial time *)
+Theorem C05_initial : forall cfg devf fuel initial s0,
+  (forall c lv', In (c, KSys lv') (l_order (level_of cfg top)) -> deep_enough cfg fuel lv') ->
+  NoDup (flat_map (sub_levels cfg fuel) (l_order (level_of cfg top))) ->
+  (forall x, In x (flat_map (sub_levels cfg fuel) (l_order (level_of cfg top))) -> ~ In x (s_ticked s0)) ->
+  real_ids cfg top ->
+  (forall x, In x (flat_map (sub_levels cfg fuel) (l_order (level_of cfg top))) -> real_ids cfg x) ->
+  let roots := map fst (l_order (level_of cfg top)) in
+  let '(s1, _, ob) := tick_level cfg devf fuel top initial roots [] s0 in
+  map obs_comp ob = flat_map (sub_devices cfg fuel) (l_order (level_of cfg top)) /\
+  (forall o, In o ob -> obs_time o = initial).
+Proof. exact initial_tick_obs. Qed.
+
+(* the same for the first tick of any nested scheduler, whatever its external inputs -- in
+   particular also for inner devices that are not fed from outside their system *)
+Theorem C05_first_nested_tick : forall cfg devf f lv time chg s,
+  deep_enough cfg f lv -> NoDup (levels_below cfg f lv) ->
+  (forall x, In x (levels_below cfg f lv) -> ~ In x (s_ticked s)) ->
+  (forall x, In x (levels_below cfg f lv) -> real_ids cfg x) ->
+  let '(s', _, _, ob) := on_tick_level cfg devf f lv time chg s in
+  map obs_comp ob = devices_below cfg f lv /\
+  (forall o, In o ob -> obs_time o = time) /\
+  (forall x, In x (s_ticked s') <-> In x (levels_below cfg f lv) \/ In x (s_ticked s)).
+Proof. intros cfg devf f. apply (first_tick_all cfg devf f). Qed.
+
+(* "exactly once": with unique component names the list of observed devices has no duplicates *)
+Theorem C05_exactly_once : forall cfg fuel (ob : list obs),
+  NoDup (flat_map (sub_devices cfg fuel) (l_order (level_of cfg top))) ->
+  map obs_comp ob = flat_map (sub_devices cfg fuel) (l_order (level_of cfg top)) ->
+  NoDup (map obs_comp ob).
+Proof. intros cfg fuel ob Hnd ->. exact Hnd. Qed.
+
+(* non-vacuity: a system in a system, the innermost device not fed from outside *)
+Example C05_example :
+  let cfg := [(1%positive, {| l_order := [(3%positive, KDev); (4%positive, KSys 2%positive)]; l_conns := [(3, 1, 4, 1)%positive] |});
+              (2%positive, {| l_order := [(5%positive, KDev); (6%positive, KSys 3%positive)]; l_conns := [(1, 1, 5, 1)%positive] |});
+              (3%positive, {| l_order := [(7%positive, KDev)]; l_conns := [] |})] in
+  map (fun o : obs => (fst (fst o), snd (fst o))) (simulate cfg (fun _ _ _ _ => ([], None)) 1 1 5 10 7 [] 100)
+  = [(3%positive, 7); (5%positive, 7); (7%positive, 7)].
+Proof. vm_compute. reflexivity. Qed.
